@@ -40,6 +40,24 @@ Proof.
 Qed.
 Print Assumptions C15_override_in_region_refuted.
 
+(* known finding C15-super-from-unescaped-parent: the parent template 2 is not autoescaped, the child 1
+   is; super() wraps the parent's unescaped block output in Markup *)
+Theorem C15_super_from_unescaped_refuted : exists ae root child d o,
+  ae 1 = true /\ render ae true [] [] (block_table [5] [(1, child); (2, root)]) 12 1 2 root d = Some o /\ ~ Clean o.
+Proof.
+  exists (fun t => t =? 1), [SBlock 5 [SOut (EVar 1)]], [SBlock 5 [SOut ESuper]], [(1, [60])], [60].
+  vm_compute. repeat split; try reflexivity. discriminate.
+Qed.
+Print Assumptions C15_super_from_unescaped_refuted.
+
+(* known finding C15-include-inside-autoescape-region: the included template 10 follows its own setting *)
+Theorem C15_include_in_region_refuted : exists root d o,
+  render (fun _ => false) true [] [(10, [SOut (EVar 1)])] [] 12 1 1 root d = Some o /\ ~ Clean o.
+Proof.
+  exists [SAutoescape (AConst true) [SInclude 10]], [(1, [60])], [60]. vm_compute. split; [reflexivity|discriminate].
+Qed.
+Print Assumptions C15_include_in_region_refuted.
+
 (* ... whereas a block tag inside a region of its OWN template is compiled volatile (fix 60bd736)
    and escapes: {% autoescape true %}{% block b %}{{ d }}{% endblock %}{% endautoescape %}, default off *)
 Example C15_block_in_own_region :
